@@ -35,6 +35,14 @@ pub struct Event {
     pub kind: EventKind,
 }
 
+// std: `VecDeque::with_capacity(n)` panics ("capacity overflow") when n elements exceed isize::MAX bytes. Elements are assumed to be at
+// most 4 KiB (a frame is a few hundred bytes); vstd's own contract of with_capacity has no precondition, so a call the source gains goes
+// through this stand-in (`rewrite?`), which the capacity argument of FrameStore::new - "for all capacity settings" - must satisfy.
+#[verifier::external_body]
+pub fn vecdeque_with_capacity<T>(n: usize) -> (r: VecDeque<T>)
+    requires n as int * 4096 <= isize::MAX as int,          // [std.with_capacity.requires_capacity_in_bytes_within_isize_max_else_panic]
+    ensures r@ == Seq::<T>::empty(),
+{ unimplemented!() }
 //@@ item crates/rip-tui/src/frame_store.rs struct FrameStore dropderive=Clone
 
 impl FrameStore {
@@ -46,6 +54,7 @@ impl FrameStore {
     }
 
     //@@ fn crates/rip-tui/src/frame_store.rs FrameStore::new
+    //@@ rewrite? VecDeque::with_capacity( => vecdeque_with_capacity(
     //@@ sig
         ensures
             ret.wf(),                       // [new.wf]
